@@ -1,3 +1,4 @@
+import AdeuModel.Lemmas.ComGrow
 import AdeuModel.Lemmas.Engine
 import AdeuModel.Lemmas.Grow
 /-
@@ -44,5 +45,34 @@ theorem C10_reply_unknown_skipped (s : Sess) (tgt tid : Str) (c : Bool) (text : 
   simp only [Sess.applyAction, hp, h, Bool.and_false, Bool.false_eq_true, ↓reduceIte]
 
 example : parseTarget "Com:5".toList = ("5".toList, false, true) := by decide
+
+/-- **Who wrote the comment entries of the result.**  After any batch (literal or searched targets, applied or
+skipped) every entry of the comments part is an entry the opened document already had, or an entry written by this
+run: this run's author, no parent attribute, not resolved, one paragraph, and a numeric id above every numeric id
+the document carried - it cannot be taken for, or collide with, an existing comment. -/
+theorem C10_new_comments_attributed (d : Document) (author date : Str) (edits : List HEdit) (c : Comment)
+    (hc : c ∈ (Doc.applyEdits (Sess.open d author date) edits).1.doc.comments) :
+    c ∈ (normalize d).comments ∨
+      (c.author = some author ∧ c.legacyParent = none ∧ c.doneAttr = none ∧ c.paras.length = 1 ∧
+        ∃ k, c.id = natStr k ∧ ∀ c' ∈ (normalize d).comments, ∀ k', strNat? c'.id = some k' → k' < k) :=
+  new_comments_attributed d author date edits c hc
+
+/-- **Comment ids stay unique.**  If the comment ids of the opened document are pairwise distinct, so are those of
+the result of any batch: the entries a run adds get consecutive numerals from its counter, which starts above every
+numeric id the document carries (and a numeral reads back as its number: `strNat?_natStr`). -/
+theorem C10_comment_ids_stay_unique (d : Document) (author date : Str) (edits : List HEdit)
+    (hn : ((normalize d).comments.map (·.id)).Nodup) :
+    ((Doc.applyEdits (Sess.open d author date) edits).1.doc.comments.map (·.id)).Nodup :=
+  comment_ids_stay_unique d author date edits hn
+
+/-- the same for review rounds (replies) -/
+theorem C10_comment_ids_stay_unique_actions (d : Document) (author date : Str) (acts : List Action)
+    (hn : ((normalize d).comments.map (·.id)).Nodup) :
+    (((Sess.open d author date).applyActions acts).1.doc.comments.map (·.id)).Nodup :=
+  comment_ids_stay_unique_actions d author date acts hn
+
+example : (([{ id := "1".toList, author := none, date := none, initials := none, paras := [], legacyParent := none, doneAttr := none },
+             { id := "x7".toList, author := none, date := none, initials := none, paras := [], legacyParent := none, doneAttr := none }] :
+             List Comment).map (·.id)).Nodup := by decide
 
 end Adeu.Props.C10
